@@ -42,14 +42,22 @@ def op_close(sim, ep, target, size, fin):
     ep.api("close", code, ftype, reason)
     ep._closing = True
     ep.pump()
+    state = ep.conn._state.name
+    if state not in ("CLOSING", "DRAINING", "TERMINATED"):
+        # "starting to close" of a local close is the application's close() call followed by its
+        # datagrams_to_send(): the closing period must have begun by then, whatever the path allows
+        raise Violation("c09.closing", "close-did-not-start-closing:" + state,
+                        "%s: close(0x%x) followed by datagrams_to_send() at t=%.4f left the connection in state %s" % (
+                            ep.name, code, sim.k.now, state))
 
 
 PROFILES = {
     "close": {"faults": FAULTS, "op_weights": OPS, "custom_ops": {"close": op_close}, "idle_timeouts": IDLE,
-              "poke_after_termination": True, "fair_budget": 150.0, "t_adv_max": 5.0, "accept_any_first": True},
+              "poke_after_termination": True, "fair_budget": 150.0, "t_adv_max": 5.0, "accept_any_first": True,
+              "allow_vn": True, "allow_no_common_version": True, "blackout_on_accept_p": 0.3},
     "crash": {"faults": FAULTS + ("peer-crash",), "op_weights": dict(OPS, close=0.5),
               "custom_ops": {"close": op_close}, "idle_timeouts": IDLE, "poke_after_termination": True,
-              "fair_budget": 150.0, "t_adv_max": 5.0, "accept_any_first": True},
+              "fair_budget": 150.0, "t_adv_max": 5.0, "accept_any_first": True, "blackout_on_accept_p": 0.3},
     "fatal": {"faults": ("drop", "dup", "delay", "timer-late"), "op_weights": dict(OPS, close=0.3),
               "custom_ops": {"close": op_close}, "idle_timeouts": IDLE, "poke_after_termination": True,
               "fair_budget": 150.0, "t_adv_max": 5.0, "fatal_frames": True, "accept_any_first": True},
